@@ -53,5 +53,7 @@ def stream(ctx, n_runs, monitors_):
         if tr.exc is not None:
             ctx.stats["minute_runs_ended_by_exception:" + type(tr.exc).__name__] += 1
         ix = acct_sync.Index(S, cfgk)
+        import tstream, world_sync
+        world_sync.run_sync(ctx, tstream.world_corrs(ctx), tr, ix)        # the free-running composed model, fed one minute bar after the other
         for m in monitors_:
             m(ctx, tr, ix)
